@@ -1006,4 +1006,11 @@ def mon_c03(t):
             if not held:
                 bad.append({"step": k, "clause": "a listed node's pod CIDRs are not reserved again after restart",
                             "detail": "%s holds %s, eligible ClusterCIDRs %s" % (n["name"], cs, elig), "cls": "listed-node-not-reserved"})
-    return bad + [b for b in mon_c01(t) if "listed" in b["detail"]]
+    # "all other guarantees keep holding for everything that happens afterwards": what is assigned after a restart is still one
+    # well-formed block per family of an eligible ClusterCIDR -- in particular not of one whose deletion had been requested
+    # before the controller stopped (the rebuilt entry must be terminating)
+    restarts = [k for k, op in enumerate(t.ops) if op.split()[0] == "construct"]
+    after = restarts[1] if len(restarts) > 1 else None
+    later = [dict(b, clause="after a restart: " + b["clause"]) for b in mon_c02(t)
+             if after is not None and b["step"] > after and b["cls"] == "bad-assignment"]
+    return bad + [b for b in mon_c01(t) if "listed" in b["detail"]] + later
